@@ -47,6 +47,7 @@ type tcBundle struct {
 }
 
 type tcSim struct {
+	done  chan struct{} // closed at the end of a run: every harness task returns
 	c     *simk.Case
 	res   *simk.Result
 	lg    *simk.Log
@@ -134,6 +135,8 @@ func (s *tcSim) forward(dir string, from <-chan msgs.Message, to chan msgs.Messa
 				buf = append(buf, m)
 			case out <- head:
 				buf = buf[1:]
+			case <-s.done:
+				return
 			}
 		}
 		if s.closeAfter[dir] {
@@ -141,20 +144,34 @@ func (s *tcSim) forward(dir string, from <-chan msgs.Message, to chan msgs.Messa
 		}
 	}()
 	n := 0
-	for m := range from {
+	for {
+		var m msgs.Message
+		select {
+		case m = <-from:
+		case <-s.done:
+			return
+		}
 		n++
 		v := s.sched.Park("wire."+dir, strconv.Itoa(n), m)
 		switch v {
 		case "deliver":
-			q <- m
+			select {
+			case q <- m:
+			case <-s.done:
+				return
+			}
 		case "drop":
 		case "close":
 			s.closeAfter[dir] = true
 			close(q)
 			// keep draining so that writers do not block for ever on a dead wire
-			for range from {
+			for {
+				select {
+				case <-from:
+				case <-s.done:
+					return
+				}
 			}
-			return
 		default:
 			close(q)
 			return
@@ -164,7 +181,17 @@ func (s *tcSim) forward(dir string, from <-chan msgs.Message, to chan msgs.Messa
 
 // scriptedPeer plays side B: it reads segments from bIn and answers on bOut according to peerMode.
 func (s *tcSim) scriptedPeer() {
-	for m := range s.bIn {
+	for {
+		var m msgs.Message
+		var open bool
+		select {
+		case m, open = <-s.bIn:
+			if !open {
+				return
+			}
+		case <-s.done:
+			return
+		}
 		dtm, ok := m.(*msgs.DataTransmissionMessage)
 		if !ok {
 			continue
@@ -189,10 +216,18 @@ func (s *tcSim) scriptedPeer() {
 		faulty := mode != "ack" && k > s.peerK
 		switch {
 		case !faulty:
-			s.bOut <- msgs.NewDataAcknowledgementMessage(dtm.Flags, dtm.TransferId, uint64(total))
+			select {
+			case s.bOut <- msgs.NewDataAcknowledgementMessage(dtm.Flags, dtm.TransferId, uint64(total)):
+			case <-s.done:
+				return
+			}
 		case mode == "noack":
 		case mode == "refuse":
-			s.bOut <- msgs.NewTransferRefusalMessage(msgs.TransferRefusalCode(s.c.CfgInt("refuse_code", 2)), dtm.TransferId)
+			select {
+			case s.bOut <- msgs.NewTransferRefusalMessage(msgs.TransferRefusalCode(s.c.CfgInt("refuse_code", 2)), dtm.TransferId):
+			case <-s.done:
+				return
+			}
 		}
 	}
 }
@@ -205,6 +240,7 @@ func (s *tcSim) body() {
 	s.peerMode = s.c.CfgS("peer_mode", "ack")
 	s.peerK = s.c.CfgInt("peer_k", 0)
 	// like the real message switch: 32 messages of buffering on each channel
+	s.done = make(chan struct{})
 	s.aOut, s.bOut = make(chan msgs.Message, 32), make(chan msgs.Message, 32)
 	s.aIn, s.bIn = make(chan msgs.Message, 32), make(chan msgs.Message, 32)
 	s.tmA = NewTransferManager(s.aIn, s.aOut, s.m)
@@ -268,6 +304,11 @@ func (s *tcSim) body() {
 	for _, t := range s.sched.Parked() {
 		s.sched.Release(t, nil)
 	}
+	// end every harness task, give the managers' own goroutines (senders in their acknowledgement timeout) the time
+	// to finish: a goroutine left blocked in a dead bubble keeps its buffers (1 MiB segments) for the life of the worker
+	close(s.done)
+	time.Sleep(12 * time.Second)
+	synctest.Wait()
 	s.res.Nontrivial = len(s.bundles) > 0
 }
 
